@@ -13,10 +13,10 @@ import common as C  # noqa: E402
 import dates as D   # noqa: E402
 from parallel import driver_parallel  # noqa: E402
 
-GEN = ['DateK', 'Calendar', 'DateLogic', 'Wiring']
+GEN = ['DateK', 'Calendar', 'DateLogic', 'Wiring', 'SchedLoop']
 PROPS = ['FinVerif.Props.C16', 'FinVerif.Props.C16b', 'FinVerif.Props.C16c', 'FinVerif.Props.C16d', 'FinVerif.Props.C16e',
          'FinVerif.Props.C16f', 'FinVerif.Props.C16g', 'FinVerif.Props.C16h', 'FinVerif.Props.C16i',
-         'FinVerif.Props.C16w']
+         'FinVerif.Props.C16w', 'FinVerif.Props.C16l']
 DRIVERS = ['FinVerif.Driver.C16']
 WIRING_DRIVER = 'FinVerif.Driver.C16w'   # evaluates Spec/Wiring's rules on Gen/Wiring (names the sites behind a failing decide)
 SPEC_DRIVERS = ['FinVerif.Driver.C16Spec']
@@ -93,7 +93,7 @@ def classify(op, impl, ideal, strict, adj_eff, adj_term_moves=False):
 
 def run(ctx):
     merge_local_findings(ctx)
-    all_ok = C.lean_stage(ctx, GEN, PROPS, DRIVERS + SPEC_DRIVERS + [WIRING_DRIVER], extra_files=['FinVerif/Spec/Wiring.lean'])
+    all_ok = C.lean_stage(ctx, GEN, PROPS, DRIVERS + SPEC_DRIVERS + [WIRING_DRIVER], extra_files=['FinVerif/Spec/Wiring.lean', 'FinVerif/Lemmas/C16Loop.lean'])
     # the wiring driver failing to build (table not generated) must not switch off the schedule model's correspondences
     unbuilt = [m for b in ctx.broken if b.startswith('model: the executable model') for m in b.split(': ')[-1].split(', ')]
     drivers_ok = ctx.model_ok = all_ok or not any(m in unbuilt for m in DRIVERS + SPEC_DRIVERS)
